@@ -58,41 +58,43 @@ Theorem C09_live_directories_survive :
 Proof. exact live_dirs_survive_nth. Qed.
 Print Assumptions C09_live_directories_survive.
 
-(* One cleanup pass reclaims everything half-made: whenever the Cleanup after a restart returns without error,
-   what is left in snapshots/ are directories of snapshots in metadata only (no temp directory, no orphan) —
-   for every image whatsoever.
-   FULL STATEMENT (false of the code, see C09_one_cleanup_suffices_refuted): the same without the hypothesis
-   that Cleanup returns ROk; Cleanup returns ROk iff some snapshot was ever committed (seq <> 0). *)
-Theorem C09_one_cleanup_suffices_partial :
+(* One cleanup pass reclaims everything half-made — at full strength since fix C09-fix-1 (getCleanupDirectories
+   tolerates the NotFound of a database in which no snapshot was ever committed; before the fix the statement was
+   refuted by a crash inside the very first createSnapshot, finding F61): for EVERY image, the Cleanup after a
+   successful restart succeeds and leaves in snapshots/ only directories of snapshots in metadata. *)
+Theorem C09_one_cleanup_suffices :
   forall nr allow mbad img s' ubad,
     restart nr allow mbad img = (s', true) ->
-    snd (step s' (Cleanup ubad)) = ROk ->
+    snd (step s' (Cleanup ubad)) = ROk /\
     forall d, In d (dirs (fst (step s' (Cleanup ubad)))) ->
       exists n i, In (n, i) (meta (fst (step s' (Cleanup ubad)))) /\ d = DId (i_id i).
-Proof. intros nr allow mbad img s' ubad _. exact (cleanup_no_garbage ubad s'). Qed.
-Print Assumptions C09_one_cleanup_suffices_partial.
+Proof. exact one_cleanup_suffices. Qed.
+Print Assumptions C09_one_cleanup_suffices.
 
-Theorem C09_cleanup_succeeds_iff_initialised :
-  forall ubad s, closed s = false -> (snd (step s (Cleanup ubad)) = ROk <-> seq s <> 0).
-Proof. exact cleanup_ok_iff. Qed.
-Print Assumptions C09_cleanup_succeeds_iff_initialised.
+(* ... and for the crash images of reachable states it is exact: after restart + one Cleanup the metadata is that
+   of the image, every directory belongs to a snapshot and every snapshot has its directory (with NoRestore after
+   an interrupted Close the deliberately removed directories of remote snapshots are not recreated: excluded). *)
+Theorem C09_one_cleanup_exact :
+  forall a os o order k code img nr allow mbad s' ubad, let s := exec (init a) os in
+    closed s = false ->
+    nth_error (crash_points order s o) k = Some (code, img) ->
+    restart nr allow mbad img = (s', true) ->
+    (nr = false \/ is_close o = false) ->
+    let s2 := fst (step s' (Cleanup ubad)) in
+    meta s2 = meta img /\
+    (forall d, In d (dirs s2) -> exists n i, In (n, i) (meta s2) /\ d = DId (i_id i)) /\
+    (forall n i, lookup (meta s2) n = Some i -> In (DId (i_id i)) (dirs s2)).
+Proof. exact one_cleanup_exact. Qed.
+Print Assumptions C09_one_cleanup_exact.
 
-(* The excluded class is real: crash inside the very first createSnapshot (after the temp directory was made,
-   before the first metadata commit), restart, Cleanup: Cleanup fails with NotFound (storage.IDMap on a database
-   without the snapshots bucket) and the temp directory stays (finding C09-cleanup-on-never-initialised-metadata). *)
-Theorem C09_one_cleanup_suffices_refuted :
-  exists a os o order k code img nr allow mbad s' ubad,
-    nth_error (crash_points order (exec (init a) os) o) k = Some (code, img) /\
-    restart nr allow mbad img = (s', true) /\
-    snd (step s' (Cleanup ubad)) = RErr ENotFound /\
-    exists d, In d (dirs (fst (step s' (Cleanup ubad)))) /\ forall n i, In (n, i) (meta s') -> d <> DId (i_id i).
-Proof.
-  exists false, [], (Prepare 0 None no_labels true []), [], 0, 1.
-  eexists. exists false, false, []. eexists. exists [].
-  split; [vm_compute; reflexivity|]. split; [vm_compute; reflexivity|]. split; [vm_compute; reflexivity|].
-  exists (DTemp 0). split; [vm_compute; auto|]. intros n i [].
-Qed.
-Print Assumptions C09_one_cleanup_suffices_refuted.
+(* Witness that the formerly refuted case is now handled: crash of the very first Prepare right after its temp
+   directory was made, restart, Cleanup: ROk and snapshots/ is empty. *)
+Example C09_first_create_crash_reclaimed :
+  exists img, nth_error (crash_points [] (init false) (Prepare 0 None no_labels true [])) 0 = Some (1, img) /\
+    dirs img = [DTemp 0] /\
+    snd (step (fst (restart false false [] img)) (Cleanup [])) = ROk /\
+    dirs (fst (step (fst (restart false false [] img)) (Cleanup []))) = [].
+Proof. eexists. vm_compute. repeat split. Qed.
 
 (* Non-vacuity: remote chain k1 <- k2; crash of a third Prepare-with-target right after its backend Mount, before
    the internal commit (marker 5): the image holds the new active snapshot without remote mark; a strict restart
